@@ -36,9 +36,9 @@ VARIABLES cIn, cOut, uIn, uOut,     \* wires: client->proxy, proxy->client, upst
           cGot, uGot,               \* units read by the peer applications (history)
           cPeer, uPeer,             \* "open" | "wrshut" | "closed"   (peer application side)
           cbuf, ubuf,               \* the proxy's queues: Seq of chunks, a chunk is a Seq of units
-          mustFlush, readsTeared, upBroken, dead,
+          mustFlush, readsTeared, upBroken, upClosed, dead,
           cause                     \* why the proxy tore down: "" | "flushed" | "cerr" | "uerr" | "ceof" | "ueof"
-vars == <<cIn, cOut, uIn, uOut, cSent, uSent, cGot, uGot, cPeer, uPeer, cbuf, ubuf, mustFlush, readsTeared, upBroken, dead, cause>>
+vars == <<cIn, cOut, uIn, uOut, cSent, uSent, cGot, uGot, cPeer, uPeer, cbuf, ubuf, mustFlush, readsTeared, upBroken, upClosed, dead, cause>>
 
 Flat(b) == FlattenSeq(b)
 Min2(a, b) == IF a < b THEN a ELSE b
@@ -47,7 +47,7 @@ OwnUnit(i) == 100 + i               \* the proxy's own output units are 101, 102
 
 Init == /\ cIn = <<>> /\ cOut = <<>> /\ uIn = <<>> /\ uOut = <<>> /\ cSent = 0 /\ uSent = 0
         /\ cGot = <<>> /\ uGot = <<>> /\ cPeer = "open" /\ uPeer = "open"
-        /\ ubuf = <<>> /\ readsTeared = FALSE /\ upBroken = FALSE /\ dead = FALSE /\ cause = ""
+        /\ ubuf = <<>> /\ readsTeared = FALSE /\ upBroken = FALSE /\ upClosed = FALSE /\ dead = FALSE /\ cause = ""
         /\ IF SCEN = "reject"
               THEN /\ mustFlush = TRUE
                    /\ cbuf \in {<<[i \in 1..OWN |-> OwnUnit(i)]>>,        \* queued as one piece
@@ -57,22 +57,22 @@ Init == /\ cIn = <<>> /\ cOut = <<>> /\ uIn = <<>> /\ uOut = <<>> /\ cSent = 0 /
 (* ---------------- environment: peer applications ---------------- *)
 CSend == SCEN = "tunnel" /\ cPeer = "open" /\ cSent < N /\ Len(cIn) < CAP /\ ~dead
          /\ cSent' = cSent + 1 /\ cIn' = Append(cIn, cSent + 1)
-         /\ UNCHANGED <<cOut, uIn, uOut, uSent, cGot, uGot, cPeer, uPeer, cbuf, ubuf, mustFlush, readsTeared, upBroken, dead, cause>>
+         /\ UNCHANGED <<cOut, uIn, uOut, uSent, cGot, uGot, cPeer, uPeer, cbuf, ubuf, mustFlush, readsTeared, upBroken, upClosed, dead, cause>>
 USend == HasUp /\ uPeer = "open" /\ uSent < N /\ Len(uIn) < CAP /\ ~dead
          /\ uSent' = uSent + 1 /\ uIn' = Append(uIn, uSent + 1)
-         /\ UNCHANGED <<cIn, cOut, uOut, cSent, cGot, uGot, cPeer, uPeer, cbuf, ubuf, mustFlush, readsTeared, upBroken, dead, cause>>
+         /\ UNCHANGED <<cIn, cOut, uOut, cSent, cGot, uGot, cPeer, uPeer, cbuf, ubuf, mustFlush, readsTeared, upBroken, upClosed, dead, cause>>
 CRead == cPeer # "closed" /\ cOut # <<>> /\ cGot' = Append(cGot, Head(cOut)) /\ cOut' = Tail(cOut)
-         /\ UNCHANGED <<cIn, uIn, uOut, cSent, uSent, uGot, cPeer, uPeer, cbuf, ubuf, mustFlush, readsTeared, upBroken, dead, cause>>
+         /\ UNCHANGED <<cIn, uIn, uOut, cSent, uSent, uGot, cPeer, uPeer, cbuf, ubuf, mustFlush, readsTeared, upBroken, upClosed, dead, cause>>
 URead == HasUp /\ uPeer # "closed" /\ uOut # <<>> /\ uGot' = Append(uGot, Head(uOut)) /\ uOut' = Tail(uOut)
-         /\ UNCHANGED <<cIn, cOut, uIn, cSent, uSent, cGot, cPeer, uPeer, cbuf, ubuf, mustFlush, readsTeared, upBroken, dead, cause>>
+         /\ UNCHANGED <<cIn, cOut, uIn, cSent, uSent, cGot, cPeer, uPeer, cbuf, ubuf, mustFlush, readsTeared, upBroken, upClosed, dead, cause>>
 CShut == cPeer = "open" /\ ~dead /\ cPeer' = "wrshut"
-         /\ UNCHANGED <<cIn, cOut, uIn, uOut, cSent, uSent, cGot, uGot, uPeer, cbuf, ubuf, mustFlush, readsTeared, upBroken, dead, cause>>
+         /\ UNCHANGED <<cIn, cOut, uIn, uOut, cSent, uSent, cGot, uGot, uPeer, cbuf, ubuf, mustFlush, readsTeared, upBroken, upClosed, dead, cause>>
 UShut == HasUp /\ uPeer = "open" /\ ~dead /\ uPeer' = "wrshut"
-         /\ UNCHANGED <<cIn, cOut, uIn, uOut, cSent, uSent, cGot, uGot, cPeer, cbuf, ubuf, mustFlush, readsTeared, upBroken, dead, cause>>
+         /\ UNCHANGED <<cIn, cOut, uIn, uOut, cSent, uSent, cGot, uGot, cPeer, cbuf, ubuf, mustFlush, readsTeared, upBroken, upClosed, dead, cause>>
 CClose == cPeer # "closed" /\ ~dead /\ cPeer' = "closed"      \* full close: what was in flight towards it is gone
-         /\ UNCHANGED <<cIn, cOut, uIn, uOut, cSent, uSent, cGot, uGot, uPeer, cbuf, ubuf, mustFlush, readsTeared, upBroken, dead, cause>>
+         /\ UNCHANGED <<cIn, cOut, uIn, uOut, cSent, uSent, cGot, uGot, uPeer, cbuf, ubuf, mustFlush, readsTeared, upBroken, upClosed, dead, cause>>
 UClose == HasUp /\ uPeer # "closed" /\ ~dead /\ uPeer' = "closed"
-         /\ UNCHANGED <<cIn, cOut, uIn, uOut, cSent, uSent, cGot, uGot, cPeer, cbuf, ubuf, mustFlush, readsTeared, upBroken, dead, cause>>
+         /\ UNCHANGED <<cIn, cOut, uIn, uOut, cSent, uSent, cGot, uGot, cPeer, cbuf, ubuf, mustFlush, readsTeared, upBroken, upClosed, dead, cause>>
 
 (* ---------------- the proxy: one loop iteration for this work ---------------- *)
 FlushOne(b, w) == \* TcpConnection.flush(): first chunk, at most MAXSEND units, what the wire takes; [b, w] after
@@ -89,7 +89,7 @@ uWritable == Len(uOut) < CAP \/ uPeer = "closed"
 wantCR == ~mustFlush                 \* get_events: read interest dropped during the final flush
 wantCW == cbuf # <<>>
 wantUR == HasUp                      \* a broken WRITE side (FIX) does not stop reading what the upstream already sent
-wantUW == upOpen /\ ubuf # <<>>
+wantUW == upOpen /\ ubuf # <<>>       \* (also after the upstream's end of stream, upClosed: its socket stays open until shutdown)
 Ready == (wantCR /\ cReadable) \/ (wantCW /\ cWritable) \/ (wantUR /\ uReadable) \/ (wantUW /\ uWritable)
 
 Tick == /\ ~dead /\ Ready
@@ -98,16 +98,20 @@ Tick == /\ ~dead /\ Ready
          \* 1. client flush (handle_writables)
          cErr == rCW /\ cPeer = "closed"
          f1 == IF rCW /\ ~cErr THEN FlushOne(cbuf, cOut) ELSE [b |-> cbuf, w |-> cOut]
-         \* as built: client write error => teardown now; final flush done => teardown now (whatever is queued for the upstream)
-         td1 == ~FIX /\ (cErr \/ (rCW /\ mustFlush /\ f1.b = <<>>))
-         cg1 == cErr /\ FIX                           \* intended: client is gone, but let the upstream queue drain
+         \* as built: what the plugin still had to write when this iteration's events were collected (get_events) goes out
+         \* before the handler gives up a client that is gone or has ended its stream; intended: the same, judged afresh
+         pend0 == wantUW
+         cFlushed == rCW /\ ~cErr /\ mustFlush /\ f1.b = <<>>
+         td1 == ~FIX /\ (cErr \/ cFlushed) /\ ~pend0
+         cg1 == cErr /\ (FIX \/ pend0)                \* client is gone: its queue is dropped, reads are torn down, the upstream queue drains
+         mf1 == ~FIX /\ cFlushed /\ pend0             \* final flush done but the plugin has output pending: finish that first
          \* 2. upstream flush (plugin.write_to_descriptors)
          uErr == ~td1 /\ rUW /\ uPeer = "closed"
          f2 == IF ~td1 /\ rUW /\ ~uErr THEN FlushOne(ubuf, uOut) ELSE [b |-> ubuf, w |-> uOut]
          td2 == td1
          ub2 == uErr                                   \* a failed write: what is queued for the upstream is dropped, reading it goes on to its end
          \* 3. client read (handle_readables -> handle_data -> on_client_data)
-         doCR == ~td2 /\ ~readsTeared /\ rCR
+         doCR == ~td2 /\ ~readsTeared /\ ~cg1 /\ ~mf1 /\ rCR
          cEof == doCR /\ cIn = <<>>
          nC == IF doCR /\ ~cEof THEN Min2(Len(cIn), RECV) ELSE 0
          ub2b == IF ub2 THEN <<>> ELSE f2.b            \* the failed flush dropped the queue
@@ -115,7 +119,7 @@ Tick == /\ ~dead /\ Ready
          \* end of stream from the client: with output pending for it (it may only have closed its sending side) the handler
          \* switches to flush-then-close (BaseTcpServerHandler.handle_readables), otherwise reads are torn down
          cEofFlush == cEof /\ f1.b # <<>>
-         rt3 == readsTeared \/ (cEof /\ ~cEofFlush) \/ cg1
+         rt3 == readsTeared \/ (cEof /\ ~cEofFlush) \/ cg1 \/ mf1
          \* 3b. upstream read (plugin.read_from_descriptors), only while reads are not torn down
          doUR == ~td2 /\ ~rt3 /\ rUR
          uEof == doUR /\ uIn = <<>>
@@ -125,15 +129,15 @@ Tick == /\ ~dead /\ Ready
          \* 4. teardown decision
          drainedUp == ubuf3 = <<>> \/ ub2 \/ upBroken \/ uPeer # "open" \/ ~HasUp
          \* as built: ignores ubuf (F20); intended: the final flush (mustFlush) also waits for the upstream queue
-         td == td2 \/ (IF FIX THEN (rt4 \/ mustFlush \/ cEofFlush) /\ cbuf3 = <<>> /\ drainedUp ELSE rt4 /\ cbuf3 = <<>>)
+         td == td2 \/ (IF FIX THEN (rt4 \/ mustFlush \/ cEofFlush) /\ cbuf3 = <<>> /\ drainedUp ELSE rt4 /\ cbuf3 = <<>> /\ ~pend0)
      IN /\ cOut' = f1.w /\ uOut' = f2.w
         /\ cIn' = SubSeq(cIn, nC + 1, Len(cIn)) /\ uIn' = SubSeq(uIn, nU + 1, Len(uIn))
         /\ cbuf' = cbuf3 /\ ubuf' = ubuf3
-        /\ readsTeared' = rt4 /\ upBroken' = (upBroken \/ ub2) /\ dead' = td
+        /\ readsTeared' = rt4 /\ upBroken' = (upBroken \/ ub2) /\ upClosed' = (upClosed \/ uEof) /\ dead' = td
         /\ cause' = IF cErr THEN "cerr" ELSE IF td1 /\ cause = "" THEN "flushed" ELSE IF uErr THEN "uerr"
                     ELSE IF cause # "" THEN cause           \* the first reason reads were torn down is kept
                     ELSE IF cEof THEN "ceof" ELSE IF uEof THEN "ueof" ELSE ""
-        /\ mustFlush' = (mustFlush \/ cEofFlush)
+        /\ mustFlush' = ((mustFlush \/ cEofFlush) /\ ~mf1 /\ ~(cg1 /\ ~FIX))
         /\ UNCHANGED <<cSent, uSent, cGot, uGot, cPeer, uPeer>>
 Next == CSend \/ USend \/ CRead \/ URead \/ CShut \/ UShut \/ CClose \/ UClose \/ Tick
 Spec == Init /\ [][Next]_vars
@@ -160,7 +164,7 @@ PrefixC == IF SCEN = "reject" THEN IsPrefix(cGot, OwnStream) ELSE IsPrefix(cGot,
 PrefixU == IsPrefix(uGot, Stream(cSent))
 \* C07 / C01: when the proxy ends the connection nothing it holds for a peer that can still receive is dropped
 ExcuseF12 == FALSE        \* (F12 - teardown on a failed write to the upstream - was fixed in the code: nothing to excuse any more)
-ExcuseF20 == ~FIX /\ cause \in {"ceof", "cerr"}
+ExcuseF20 == FALSE       \* (F20 - client ended, upstream queue dropped - was fixed in the code)
 NoDropToClient   == (dead /\ cPeer # "closed" /\ ~ExcuseF12) => cbuf = <<>>
 NoDropToUpstream == (dead /\ HasUp /\ uPeer = "open" /\ ~upBroken /\ ~ExcuseF20) => ubuf = <<>>
 \* C07: during the final flush the proxy does not read from the client
